@@ -102,12 +102,105 @@ fn same(a: &[f64], b: &[f64]) -> bool {
     a.len() == b.len() && a.iter().zip(b).all(|(x, y)| bits_eq(*x, *y))
 }
 
+// ---- edits *inside* a helper function reached through a chain of stateful calls -------------------
+// dsp = (chainK(1.0), <any voice>, <0.0 | cnt(1.0)>); the edit rewrites the innermost function of the chain
+// (insert a mem / a delay next to its self cell, or change its constant); every cell the edit left untouched —
+// the innermost counter included — must continue.
+const DEPTHS: [usize; 4] = [1, 2, 3, 4];
+const INNER_EDITS: [(&str, &str); 3] = [
+    ("self + p + mem(p) * 0.0", "mem inserted after the self cell"),
+    ("delay(3.0, p, 1.0) * 0.0 + self + p", "delay inserted before the use of self"),
+    ("self + p * 1.0", "expression changed, cells unchanged"),
+];
+fn chain_defs(depth: usize, inner_body: &str) -> String {
+    // k1 is the innermost function; k<d> calls k<d-1>
+    let mut s = format!("fn k1(p) {{\n  {inner_body}\n}}\n");
+    for d in 2..=depth {
+        s.push_str(&format!("fn k{d}(p) {{\n  k{}(p)\n}}\n", d - 1));
+    }
+    s
+}
+fn n_inner() -> u64 {
+    (DEPTHS.len() * INNER_EDITS.len() * VOICES.len() * 2) as u64
+}
+fn inner_case(k: u64) -> (String, String, String, usize) {
+    let mut i = k as usize;
+    let third = i % 2;
+    i /= 2;
+    let v1 = i % VOICES.len();
+    i /= VOICES.len();
+    let ed = i % INNER_EDITS.len();
+    i /= INNER_EDITS.len();
+    let depth = DEPTHS[i];
+    let dsp = format!("fn dsp(x) {{\n  (k{depth}(1.0), {}, {})\n}}\n", VOICES[v1].0, if third == 0 { "0.0" } else { "cnt(1.0)" });
+    let old = format!("{HELPERS}{}{dsp}", chain_defs(depth, "self + p"));
+    let new = format!("{HELPERS}{}{dsp}", chain_defs(depth, INNER_EDITS[ed].0));
+    (old, new, format!("chain of {depth} stateful calls; innermost function edited: {}; other voices {} / {}", INNER_EDITS[ed].1, VOICES[v1].0, if third == 0 { "0.0" } else { "cnt(1.0)" }), depth)
+}
+fn main_cases() -> u64 {
+    NV.pow(M as u32) * M as u64 * n_edits()
+}
+
+impl C07 {
+    fn run_inner(&self, tier: Tier, idx: u64) -> CaseOut {
+        let (old_src, new_src, what, depth) = inner_case(idx - main_cases());
+        let (t, swap_times, cfgs) = params(tier);
+        let mut fails: Vec<Fail> = vec![];
+        let mut traces = 0u64;
+        let mut states: HashSet<u64> = HashSet::new();
+        for (b, mode) in cfgs {
+            let Ok(old_full) = run_plain(b, &old_src, 0, t, 0) else { continue };
+            for &n in swap_times.iter().filter(|&&n| n <= t) {
+                traces += 1;
+                let label = format!("{} {:?} after {n} steps: {what}", b.name(), mode);
+                match run_edit(b, mode, &old_src, &new_src, n, t, 0) {
+                    Err(m) => fails.push(Fail { clause: format!("{}_swap_or_step_crashed", b.name()), detail: format!("{label}: {m}") }),
+                    Ok((tr, sw)) => {
+                        if !matches!(sw, Ok(true)) {
+                            fails.push(Fail { clause: format!("{}_swap_refused", b.name()), detail: format!("{label}: {sw:?}") });
+                            continue;
+                        }
+                        for (k, o) in tr.out.iter().enumerate() {
+                            let mut key = vec![b as u8, k as u8];
+                            for x in o {
+                                key.extend_from_slice(&x.to_bits().to_le_bytes());
+                            }
+                            states.insert(fnv(&key));
+                        }
+                        // the edit keeps every output function: all channels continue as in the uninterrupted run
+                        for c in 0..M {
+                            let (got, exp) = (chan(&tr, c), chan(&old_full, c));
+                            if !same(&got, &exp) {
+                                fails.push(Fail {
+                                    clause: format!("{}_untouched_cell_inside_edited_function_lost_state", b.name()),
+                                    detail: format!("{label}: channel {c} got {got:?} expected {exp:?}"),
+                                });
+                            }
+                        }
+                    }
+                }
+            }
+        }
+        fails.sort_by(|a, b| a.clause.cmp(&b.clause));
+        fails.dedup_by(|a, b| a.clause == b.clause);
+        CaseOut {
+            key: idx,
+            nontrivial: traces > 0,
+            outcome: if fails.is_empty() { "preserved".into() } else { "failed".into() },
+            fails,
+            tags: vec!["edit_inner".into(), format!("chain_depth_{depth}")],
+            repr: json!({"what": what, "old_source": old_src, "new_source": new_src}),
+            counters: vec![("states".into(), states.len() as u64), ("transitions".into(), traces * (t as u64 + 1)), ("traces".into(), traces), ("edit_inner".into(), 1)],
+        }
+    }
+}
+
 impl Prop for C07 {
     fn id(&self) -> &'static str {
         "C07"
     }
     fn n_cases(&self, _tier: Tier) -> u64 {
-        NV.pow(M as u32) * M as u64 * n_edits()
+        main_cases() + n_inner()
     }
     fn chunk(&self, _t: Tier) -> u64 {
         50
@@ -119,6 +212,9 @@ impl Prop for C07 {
         120_000
     }
     fn run_case(&self, tier: Tier, idx: u64) -> CaseOut {
+        if idx >= main_cases() {
+            return self.run_inner(tier, idx);
+        }
         let (v, slot, e) = decode(idx);
         let old_src = program(&v);
         let is_broken = e >= NV as usize;
@@ -354,6 +450,10 @@ impl Prop for C07 {
         }
     }
     fn describe_case(&self, _tier: Tier, idx: u64) -> (Value, Vec<String>) {
+        if idx >= main_cases() {
+            let (o, n, w, _) = inner_case(idx - main_cases());
+            return (json!({"what": w, "old_source": o, "new_source": n}), vec!["edit_inner".into()]);
+        }
         let (v, slot, e) = decode(idx);
         (json!({"old": [VOICES[v[0]].0, VOICES[v[1]].0, VOICES[v[2]].0], "slot": slot, "edit": e}), vec![])
     }
@@ -364,10 +464,11 @@ impl Prop for C07 {
         let (t, st, cfgs) = params(tier);
         Descr {
             rule: format!(
-                "programs dsp = (v0,v1,v2) over {} voices (absent, counters with two constants, mem, two delays, nested self+call, counter inside an if arm, counter wrapped in a helper); for every old program ({} of them), every slot and every edit of that slot (replace by every voice = insert/delete/replace/constant change/nesting/no change, plus two edits that do not compile: a parse error and a type error): run the old program n steps for n in {st:?}, compile the edited text and hot-swap, run to {t} steps, on {:?}. Oracle per channel: an untouched voice continues exactly as in the uninterrupted run of the old program (any identically shaped sibling's continuation accepted when the edit touches that shape), an inserted/replaced voice equals a fresh run of the new program started at the swap time, a constant change or nesting carries the counter state, a non-compiling edit is rejected and changes nothing. states = distinct (backend, step, outputs); non-trivial = old program has a stateful voice.",
+                "programs dsp = (v0,v1,v2) over {} voices (absent, counters with two constants, mem, two delays, nested self+call, counter inside an if arm, counter wrapped in a helper); for every old program ({} of them), every slot and every edit of that slot (replace by every voice = insert/delete/replace/constant change/nesting/no change, plus two edits that do not compile: a parse error and a type error): run the old program n steps for n in {st:?}, compile the edited text and hot-swap, run to {t} steps, on {:?}. Oracle per channel: an untouched voice continues exactly as in the uninterrupted run of the old program (any identically shaped sibling's continuation accepted when the edit touches that shape), an inserted/replaced voice equals a fresh run of the new program started at the swap time, a constant change or nesting carries the counter state, a non-compiling edit is rejected and changes nothing. Plus {} inner-edit cases: dsp = (k_d(1.0), any voice, 0.0 | cnt(1.0)) where k_d reaches a counter through a chain of d = 1..4 stateful calls and the edit rewrites the innermost function (mem inserted, delay inserted, expression changed): every channel must continue. states = distinct (backend, step, outputs); non-trivial = old program has a stateful voice.",
                 VOICES.len(),
                 NV.pow(M as u32),
-                cfgs
+                cfgs,
+                n_inner()
             ),
             assumptions: vec![
                 "channel arity is fixed at 3 (WasmDspRuntime keeps its construction-time io_channels across swaps)".into(),
@@ -379,6 +480,6 @@ impl Prop for C07 {
         }
     }
     fn vacuity(&self, _t: Tier, c: &BTreeMap<String, u64>) -> Vec<String> {
-        ["edit_insert", "edit_delete", "edit_replace", "edit_replace_same_shape", "edit_const", "edit_nest", "edit_broken", "edit_none"].iter().filter(|k| c.get(**k).copied().unwrap_or(0) == 0).map(|k| format!("no {k} case")).collect()
+        ["edit_insert", "edit_delete", "edit_replace", "edit_replace_same_shape", "edit_const", "edit_nest", "edit_broken", "edit_none", "edit_inner"].iter().filter(|k| c.get(**k).copied().unwrap_or(0) == 0).map(|k| format!("no {k} case")).collect()
     }
 }
